@@ -63,6 +63,28 @@ def run(chk):
         chk.evaluations += nev
         chk.extra["recorded"] = {"histories": nh, "events": nev, "counts": rec.get("counts")}
 
+    # 5. the repository's OWN tests as a trace source (trace points of the revocation package, tag verif)
+    rt = os.path.join(vplib.sub("c09"), "revtrace.ndjson")
+    rc, out = vplib.gotest(["./revocation/", "."], "Revoc|Witness|Accumulator|Update|Revoked|Keyshare", env={"VERIF_TRACE_REV": rt}, timeout=900)
+    if rc != 0 or not os.path.exists(rt):
+        chk.extra["repo_test_trace"] = "skipped: the repository's tests did not pass with -tags verif (rc=%d)" % rc
+    else:
+        txt = open(rt).read()
+        nline = txt.count("\n")
+        rv = vplib.tlc("RevRepoTrace", "RevRepoTrace.cfg", workers=1, timeout=600, allow_fail=True, files={"revtrace.ndjson": txt})
+        chk.add_tlc(rv, "RevRepoTrace", "RevRepoTrace.cfg", "%d events recorded from the repository's own tests" % nline)
+        if "TRACE REJECTED" in rv.out:
+            import re
+            m = re.findall(r'"TRACE REJECTED at line",\s*(\d+),\s*(\[.*?\]|"eof")', rv.out, re.S)
+            chk.add_violation({"kind": "repo-test-recording-rejected",
+                               "what": "a Witness.Update recorded from the repository's own tests does not leave the witness where Revocation.tla's rule says: %s" % (m[:1],)})
+        elif rv.error:
+            raise vplib.Machinery("repo test trace validation crashed: %s" % rv.error)
+        else:
+            chk.traces += 1
+            chk.evaluations += nline
+            chk.extra["repo_test_trace"] = {"events": nline, "updates": txt.count('"ev":"update"')}
+
 def replay(chk, path):
     import json
     v = json.load(open(path))
